@@ -224,12 +224,15 @@ func genTargeted(h *harn) {
 	}
 	// byte_len_cmp of a container whose nested string holds an escape sequence: the measured length
 	// depends on whether an earlier check already read (and thereby unescaped) that string
-	esc := jObj(jKV("p", jStr("1")), jKV("a", jObj(jKV("b", jStr("x\ny")))))
+	escEv := func(p string) hx.Sx { return jObj(jKV("p", jStr(p)), jKV("a", jObj(jKV("b", jStr("x\ny"))))) }
 	reader := &rnode{kind: kField, op: 0, path: []string{"a", "b"}, cs: true, vals: []*string{sp("q")}}
 	sizer := &rnode{kind: kLen, op: 0, path: []string{"a"}, cmp: 4, value: 12}
-	h.seq("escaped-nested-string", 0, []*rnode{reader, sizer}, []hx.Sx{esc}, true)
+	// the same checker asked twice about the same event, another checker in between
+	h.seq("escaped-nested-string", 0, []*rnode{sizer, reader, sizer}, []hx.Sx{escEv("1")}, true)
+	// one tree, two events that differ only in a field the size does not depend on: whether the
+	// short-circuit skips the reader decides the size
 	h.seq("escaped-nested-string", 0, []*rnode{{kind: kOr, ops: []*rnode{{kind: kAnd, ops: []*rnode{
-		{kind: kField, op: 0, path: []string{"p"}, cs: true, vals: []*string{sp("1")}}, reader}}, sizer}}}, []hx.Sx{esc}, true)
+		{kind: kField, op: 0, path: []string{"p"}, cs: true, vals: []*string{sp("1")}}, reader}}, sizer}}}, []hx.Sx{escEv("1"), escEv("0")}, true)
 }
 
 // ---- 3. random -------------------------------------------------------------------------------------
